@@ -13,6 +13,17 @@
 //!   An outcome is `ok:<hex of as_index() of every symbol>`, `err:<code point>` or `panic`;
 //!   the observation is `name=outcome` tokens; an outcome equal to the first one printed
 //!   is abbreviated `=`.
+//! kind=win (`so=<lo>:<hi> do=<lo>:<hi>`): `encode_into` on sub-slices of larger allocations,
+//!   for every pipeline and every pair (so, do) of the two ranges:
+//!     P.encode_into(&text[B + so .. B + so + len], &mut mem[B' + do .. B' + do + len + dl])
+//!   where B, B' are the indices of a 32-byte aligned address inside the two allocations, so
+//!   that so / do are the misalignments of the source / destination pointers; the source is
+//!   surrounded by bytes outside the alphabet, the destination by guard symbols. The outcome is
+//!   `ok:<hex of the destination window>`, `err:<code point>` or `panic`, followed by `!g<j>`
+//!   when the element at index j (relative to the window start) outside the window (after a
+//!   panic: anywhere) no longer holds its guard value. Per pipeline the distinct outcomes are
+//!   printed as `w.<P>=<outcome>@<count>@<so>:<do>` (count of offset pairs, first pair showing
+//!   it; an outcome equal to the first one printed on the line is abbreviated `=`); `r.<P>=<outcome>@<count>@<so>` likewise for P.encode_raw(&text[B + so ..][..len]).
 //! kind=tab: the symbol tables as the implementation reports them (from_ascii over all
 //!   256 bytes, as_ascii/as_char/as_index over symbols(), as_str(), K, default symbol,
 //!   from_char over a range of chars).
@@ -182,6 +193,166 @@ fn run_str<A: Alphabet>(s: &[u8], dl: i64) -> String {
     obs.toks.join(" ")
 }
 
+// ------------------------------------------------------------------ sub-slices (kind=win)
+
+#[derive(Clone, PartialEq, Eq)]
+enum WOut {
+    Ok(Vec<u8>),
+    Err(u32),
+    Panic,
+}
+
+fn wout_str(o: &WOut, guard: &Option<i64>) -> String {
+    let mut t = match o {
+        WOut::Ok(v) => format!("ok:{}", hex(v)),
+        WOut::Err(c) => format!("err:{}", c),
+        WOut::Panic => "panic".to_string(),
+    };
+    if let Some(j) = guard {
+        t.push_str(&format!("!g{}", j));
+    }
+    t
+}
+
+/// Bytes around the source window: never a symbol of either alphabet.
+fn pad_byte(j: usize) -> u8 {
+    const PAD: [u8; 7] = [0x2e, 0x61, 0x00, 0xff, 0x40, 0x5b, 0x6e];
+    PAD[j % 7]
+}
+
+const SLACK: usize = 32;
+
+struct Agg {
+    entries: Vec<(WOut, Option<i64>, usize, String)>,
+}
+
+impl Agg {
+    fn add(&mut self, o: WOut, g: Option<i64>, at: String) {
+        for e in self.entries.iter_mut() {
+            if e.0 == o && e.1 == g {
+                e.2 += 1;
+                return;
+            }
+        }
+        self.entries.push((o, g, 1, at));
+    }
+}
+
+fn win_pipeline<A: Alphabet, P: Encode<A>>(
+    obs: &mut Obs,
+    name: &str,
+    p: &P,
+    s: &[u8],
+    dl: i64,
+    so_r: (usize, usize),
+    do_r: (usize, usize),
+) {
+    let n = s.len();
+    let m = (n as i64 + dl).max(0) as usize;
+    let syms = A::symbols();
+    let guard = |j: usize| syms[(j * 7 + 3) % syms.len()];
+    // allocations with room for a 32-byte aligned base, the offset, the window and slack
+    let mut text = vec![0u8; n + 3 * SLACK + 32];
+    let mut mem: Vec<A::Symbol> = vec![A::Symbol::default(); m + 3 * SLACK + 32];
+    assert_eq!(std::mem::size_of::<A::Symbol>(), 1);
+    let tb = text.as_ptr().align_offset(32) + SLACK;
+    let mb = (mem.as_ptr() as *const u8).align_offset(32) + SLACK;
+    let mut agg = Agg { entries: vec![] };
+    let mut agg_raw = Agg { entries: vec![] };
+    for so in so_r.0..=so_r.1 {
+        for (j, b) in text.iter_mut().enumerate() {
+            *b = pad_byte(j);
+        }
+        text[tb + so..tb + so + n].copy_from_slice(s);
+        {
+            let src = &text[tb + so..tb + so + n];
+            let r = no_panic(|| p.encode_raw(src));
+            let o = match r {
+                None => WOut::Panic,
+                Some(Err(e)) => WOut::Err(e.0 as u32),
+                Some(Ok(v)) => WOut::Ok(v.iter().map(|x| x.as_index().min(255) as u8).collect()),
+            };
+            agg_raw.add(o, None, format!("{}", so));
+        }
+        for d in do_r.0..=do_r.1 {
+            for (j, x) in mem.iter_mut().enumerate() {
+                *x = guard(j);
+            }
+            let src = &text[tb + so..tb + so + n];
+            let w0 = mb + d;
+            let r = {
+                let dst = &mut mem[w0..w0 + m];
+                no_panic(|| p.encode_into(src, dst))
+            };
+            let o = match r {
+                None => WOut::Panic,
+                Some(Err(e)) => WOut::Err(e.0 as u32),
+                Some(Ok(())) => WOut::Ok(mem[w0..w0 + m].iter().map(|x| x.as_index().min(255) as u8).collect()),
+            };
+            let whole = o == WOut::Panic;
+            let mut g = None;
+            for (j, x) in mem.iter().enumerate() {
+                if (whole || j < w0 || j >= w0 + m) && *x != guard(j) {
+                    g = Some(j as i64 - w0 as i64);
+                    break;
+                }
+            }
+            agg.add(o, g, format!("{}:{}", so, d));
+        }
+    }
+    for (kind, a) in [("w", &agg), ("r", &agg_raw)] {
+        for (o, g, c, at) in a.entries.iter() {
+            let mut t = wout_str(o, g);
+            match &obs.first {
+                None => obs.first = Some(t.clone()),
+                Some(f) => {
+                    if *f == t {
+                        t = "=".to_string();
+                    }
+                }
+            }
+            obs.toks.push(format!("{}.{}={}@{}@{}", kind, name, t, c, at));
+        }
+    }
+}
+
+fn run_win<A: Alphabet>(s: &[u8], dl: i64, so_r: (usize, usize), do_r: (usize, usize)) -> String {
+    let mut obs = Obs { first: None, toks: vec![] };
+    let g = Pipeline::<A, _>::generic();
+    win_pipeline::<A, _>(&mut obs, "gen", &g, s, dl, so_r, do_r);
+    match Pipeline::<A, _>::sse2() {
+        Ok(p) => win_pipeline::<A, _>(&mut obs, "sse2", &p, s, dl, so_r, do_r),
+        Err(_) => obs.toks.push("w.sse2=unsupported".to_string()),
+    }
+    match Pipeline::<A, _>::avx2() {
+        Ok(p) => win_pipeline::<A, _>(&mut obs, "avx2", &p, s, dl, so_r, do_r),
+        Err(_) => obs.toks.push("w.avx2=unsupported".to_string()),
+    }
+    let have_avx2 = std::is_x86_feature_detected!("avx2");
+    for (n, arm) in arms() {
+        if n == "A" && !have_avx2 {
+            obs.toks.push("w.dA=unsupported".to_string());
+            continue;
+        }
+        lightmotif::pli::verif::force_backend(arm);
+        let p = Pipeline::<A, _>::dispatch();
+        win_pipeline::<A, _>(&mut obs, &format!("d{}", n), &p, s, dl, so_r, do_r);
+        lightmotif::pli::verif::force_backend(None);
+    }
+    obs.toks.join(" ")
+}
+
+fn parse_range(s: Option<&String>) -> (usize, usize) {
+    let s = match s {
+        Some(s) => s.as_str(),
+        None => return (0, 0),
+    };
+    let mut it = s.split(':');
+    let lo: usize = it.next().and_then(|x| x.parse().ok()).unwrap_or(0);
+    let hi: usize = it.next().and_then(|x| x.parse().ok()).unwrap_or(lo);
+    (lo.min(31), hi.min(31).max(lo.min(31)))
+}
+
 fn run_tab<A: Alphabet>() -> String {
     let mut toks = vec![];
     toks.push(format!("k={}", A::K::USIZE));
@@ -349,6 +520,68 @@ fn gen_random(rng: &mut Rng, id: usize) -> String {
     line(id, abc, dl, &s)
 }
 
+const WLENS: &[usize] = &[
+    0, 1, 2, 15, 16, 17, 18, 30, 31, 32, 33, 34, 46, 47, 48, 49, 50, 63, 64, 65, 66, 79, 80, 81, 95, 96, 97, 111, 112, 113,
+    127, 128, 129, 130,
+];
+
+/// Position classes for the sub-slice cases, relative to a scalar prologue of up to 31
+/// symbols, the first / last vector and the scalar tail.
+fn win_pos(rng: &mut Rng, c: usize, l: usize) -> usize {
+    let last = l - 1;
+    let p = match c {
+        0 => 0,
+        1 => 1 + rng.below(14) as usize,   // inside a prologue window of a 16-byte kernel
+        2 => 15,
+        3 => 16 + rng.below(16) as usize,  // first vector behind a prologue / second SSE2 vector
+        4 => 31,
+        5 => 32 + rng.below(16) as usize,
+        6 => l.saturating_sub(1 + rng.below(16) as usize),  // last 16 symbols
+        7 => l.saturating_sub(17 + rng.below(16) as usize), // the vector before
+        8 => {
+            let t = 16 * (last / 16);
+            t + rng.below((l - t) as u64) as usize // SSE2 tail (strict loop bound)
+        }
+        9 => last,
+        _ => rng.below(l as u64) as usize,
+    };
+    p.min(last)
+}
+
+fn gen_win(rng: &mut Rng, id: usize, k: usize) -> String {
+    let abc = if k % 2 == 0 { "dna" } else { "protein" };
+    let l = if rng.chance(4, 5) { WLENS[(k / 2) % WLENS.len()] } else { rng.below(200) as usize };
+    let mut s = valid_text(rng, abc, l);
+    let r = rng.below(100);
+    let nbad = if r < 35 { 0 } else if r < 85 { 1 } else { 2 };
+    if l > 0 {
+        for _ in 0..nbad {
+            let c = rng.below(11) as usize;
+            let p = win_pos(rng, c, l);
+            let bad = bad_value(rng, abc);
+            s[p] = bad[0];
+        }
+    }
+    let dl = if rng.chance(4, 100) {
+        if rng.chance(1, 2) || l == 0 {
+            1
+        } else {
+            -1
+        }
+    } else {
+        0
+    };
+    let a = rng.below(32);
+    let b = rng.below(32);
+    let (so, d) = match rng.below(10) {
+        0..=2 => ("0:31".to_string(), "0:31".to_string()),
+        3..=5 => (format!("{}", a), "0:31".to_string()),
+        6..=7 => ("0:31".to_string(), format!("{}", b)),
+        _ => ("0:15".to_string(), "0:15".to_string()),
+    };
+    format!("{} kind=win abc={} dl={} so={} do={} hex={}", id, abc, dl, so, d, hex(&s))
+}
+
 fn main() {
     let args = parse_args();
     match args.cmd.as_str() {
@@ -357,6 +590,8 @@ fn main() {
             let full = args.tier == "thorough";
             let total_sys = if full { 512 * NCLASS * LENS.len() } else { 512 * 3 };
             let nsys = total_sys.min(args.n / 2);
+            // sub-slice cases: one sixth of the run, interleaved after the systematic part
+            let nwin = args.n / 6;
             for id in 0..args.n {
                 if id == 0 {
                     println!("{} kind=tab abc=dna", id);
@@ -364,6 +599,8 @@ fn main() {
                     println!("{} kind=tab abc=protein", id);
                 } else if id - 2 < nsys {
                     println!("{}", gen_systematic(&mut rng, id, id - 2, full));
+                } else if id - 2 - nsys < nwin {
+                    println!("{}", gen_win(&mut rng, id, id - 2 - nsys));
                 } else {
                     println!("{}", gen_random(&mut rng, id));
                 }
@@ -380,6 +617,16 @@ fn main() {
                         run_tab::<Dna>()
                     } else {
                         run_tab::<Protein>()
+                    }
+                } else if kind == "win" {
+                    let s = unhex(f.get("hex").map(|s| s.as_str()).unwrap_or(""));
+                    let dl: i64 = f.get("dl").and_then(|s| s.parse().ok()).unwrap_or(0);
+                    let so_r = parse_range(f.get("so"));
+                    let do_r = parse_range(f.get("do"));
+                    if abc == "dna" {
+                        run_win::<Dna>(&s, dl, so_r, do_r)
+                    } else {
+                        run_win::<Protein>(&s, dl, so_r, do_r)
                     }
                 } else {
                     let s = unhex(f.get("hex").map(|s| s.as_str()).unwrap_or(""));
